@@ -36,7 +36,7 @@ def set_order(op, a, b):
             for v in vs:
                 t = f(d, v)
                 ins.append(t); st.add(t)
-        key = lambda t: (t.bits, t.lower_bound, t.upper_bound, t.stride)  # noqa: E731
+        key = lambda t: (t.bits, t.lower_bound, t.upper_bound, t.stride, t.is_empty)  # noqa: E731
         dist = []
         for t in ins:
             if key(t) not in dist:
